@@ -177,4 +177,7 @@ def run(ctx) -> Report:
         "adjoint (conjugation, swap of number and part, guards) and action/energy-norm wiring checked on the AST."
     )
     rep.assumptions = ["forms whose terms depend on different argument sets of equal size are rejected by PartExtracter (not in the family)", "mixed-function-space block paths (extract_blocks) are covered by C22 only"]
+    from ..memokey import memo_rule
+
+    memo_rule(ctx, rep, "C16-key", ['ufl.algorithms.formtransformations'])
     return rep
